@@ -91,6 +91,23 @@ pub const FOCUS_COMMIT: Granularity = Granularity::Focus(
     ],
 );
 
+/// Focus on the coordinators' hand-shakes: where finality is published and commit notified, where
+/// commit takes and publishes, where a worker decides whether to notify finality, and aborts -
+/// together with the yields, parks and blocking events, which are decision points at every
+/// granularity. Lost and misplaced notifications need three to four deviations here.
+pub const FOCUS_COORD: Granularity = Granularity::Focus(
+    "focus-coord",
+    &[
+        grevm_verif_rt::pt::FINALITY_READ,
+        grevm_verif_rt::pt::FINALITY_PUBLISH,
+        grevm_verif_rt::pt::FINALITY_NOTIFY,
+        grevm_verif_rt::pt::COMMIT_TAKE,
+        grevm_verif_rt::pt::COMMIT_PUBLISH,
+        grevm_verif_rt::pt::VALIDATE_NOTIFY,
+        grevm_verif_rt::pt::ABORT,
+    ],
+);
+
 pub fn jobs(prop: &str, tier: Tier) -> Vec<Job> {
     match prop {
         "C01" => c01::jobs(tier),
